@@ -244,3 +244,18 @@ def search(ctx, hints):
         r, clean, sv = rank_of(J, c['rank'])
         if r != c['rank']:
             ctx.fail('rank-deficient' if r < c['rank'] else 'rank-excess', f"{c['name']}: rank {r}, claimed {c['rank']}", dict(cls=c['name'], theta=th.tolist(), singular_values=sv.tolist()))
+
+
+def replay(ctx, payload):
+    """re-run the probe with the seed/tier recorded in the replay file and report whether the recorded key fails again"""
+    c2 = common.Ctx(ctx.pid, payload.get('tier', 'quick'), int(payload.get('seed', 0)))
+    probe(c2)
+    hit = [f for f in c2.failures if f['key'] == payload.get('key')]
+    if hit:
+        print(f"replay: {payload.get('key')} still fails: {hit[0]['what']}")
+        import sys
+        path = sys.argv[sys.argv.index('--replay') + 1] if '--replay' in sys.argv else ''
+        print(f'VIOLATION property={ctx.pid} replay={path}')
+        return 1
+    print(f"replay: {payload.get('key')} no longer fails ({c2.probe_evals} probe evaluations)")
+    return 0
